@@ -1,15 +1,767 @@
-//! HashMap world, part 3: entry_ref, raw_entry(_mut) and rustc_entry chains (C14).
+//! HashMap world, part 3 (C14): the generalised entry-chain model and the entry_ref,
+//! raw_entry_mut (three builders), raw_entry and rustc_entry flavours.
+//!
+//! An `Entry` operation is `a` = key id, `b` = base value, `v` = [api, m1, m2, m3]; the real chain
+//! and the model chain each produce an observation log which must be equal.
 
+use crate::alloc::SimAlloc;
 use crate::ctx::VResult;
-use crate::elem::{KeyT, ValT};
-use crate::mapw::MapWorld;
+use crate::elem::{sim_eq, KeyT, ValT};
+use crate::mapw::{Ev, MapModel, MapWorld, ME, TOGGLE};
+use crate::plan::SimBuildHasher;
 use crate::scenario::Op;
+use crate::state::{sim, tick, Class, Probe};
+use hashbrown::hash_map::{EntryRef, OccupiedEntry, RawEntryMut, RawOccupiedEntryMut, RawVacantEntryMut, RustcEntry, RustcOccupiedEntry, RustcVacantEntry, VacantEntryRef};
 
-/// Number of entry API flavours the `Entry` operation can address.
-pub const N_API: i64 = 1;
+/// Number of entry API flavours: 0 entry, 1 entry_ref, 2 raw from_key, 3 raw from_key_hashed_nocheck,
+/// 4 raw from_hash, 5 rustc_entry, 6 raw_entry() (immutable, three builders by first method code).
+pub const N_API: i64 = 7;
+
+/// Placeholder serial for a key instance created inside hashbrown (`Into` conversion of entry_ref).
+pub const FRESH: u32 = u32::MAX;
+
+macro_rules! vio {
+    ($self:ident, $class:expr, $($arg:tt)*) => {
+        return Err($self.ctx.violation(&$class, format!($($arg)*)))
+    };
+}
+
+pub fn method_ok(api: i64, st: u8, m: i64) -> bool {
+    // st: 0 = E, 1 = O, 2 = V
+    match (api, st) {
+        (0, 0) => (1..=9).contains(&m),
+        (0, 1) => (10..=18).contains(&m),
+        (0, 2) => (20..=23).contains(&m),
+        // EntryRef::key / or_insert_with_key need K: Borrow<Q>, which the simulator's view types do not offer
+        (1, 0) => matches!(m, 1 | 2 | 3 | 6 | 9),
+        (1, 1) => (10..=16).contains(&m),
+        (1, 2) => matches!(m, 20 | 22 | 23),
+        (2..=4, 0) => matches!(m, 1 | 2 | 3 | 6 | 7 | 8 | 9),
+        (2..=4, 1) => (10..=18).contains(&m) || (30..=35).contains(&m),
+        (2..=4, 2) => matches!(m, 22 | 24 | 25),
+        (5, 0) => matches!(m, 1 | 2 | 3 | 5 | 6 | 9),
+        (5, 1) => (10..=16).contains(&m),
+        (5, 2) => (20..=23).contains(&m),
+        _ => false,
+    }
+}
+
+/// Expected observation log of an entry chain, and its effect on the model.
+/// `ks` = serial of the key handed to entry()/rustc_entry() (0 for by-reference flavours),
+/// `k2` = serials of spare key instances handed to raw inserts / insert_key.
+pub fn model_chain(model: &mut MapModel, api: i64, kid: u32, ks: u32, methods: &[i64], vals: &[(u32, u32)], k2: &[u32]) -> Vec<Ev> {
+    let mut log = Vec::new();
+    let mut st = 0u8; // 0 E, 1 O, 2 V, 3 done
+    let mut eks = if api == 1 { FRESH } else { ks };
+    let raw = (2..=4).contains(&api);
+    let mut vi = 0usize;
+    let mut ki = 0usize;
+    let mut next_val = || {
+        let v = vals[vi.min(vals.len() - 1)];
+        vi += 1;
+        v
+    };
+    let mut next_key = || {
+        let k = k2[ki.min(k2.len() - 1)];
+        ki += 1;
+        k
+    };
+    for &m in methods {
+        if st == 3 {
+            break;
+        }
+        if !method_ok(api, st, m) {
+            break;
+        }
+        let occ = model.pos(kid);
+        match (st, m) {
+            (0, 1) => {
+                let v = next_val();
+                let newk = if raw { next_key() } else { eks };
+                match occ {
+                    Some(i) => {
+                        model.e[i].v = v.0;
+                        model.e[i].vs = v.1;
+                    }
+                    None => model.e.push(ME { kid, ks: newk, v: v.0, vs: v.1 }),
+                }
+                st = 1;
+            }
+            (0, 2) | (0, 3) | (0, 4) => {
+                let v = next_val();
+                let newk = if raw { next_key() } else { eks };
+                let i = match occ {
+                    Some(i) => i,
+                    None => {
+                        model.e.push(ME { kid, ks: newk, v: v.0, vs: v.1 });
+                        model.e.len() - 1
+                    }
+                };
+                if raw {
+                    log.push(Ev::Key(kid, model.e[i].ks));
+                }
+                log.push(Ev::Val(model.e[i].v, model.e[i].vs));
+                st = 3;
+            }
+            (0, 5) => {
+                let e = occ.map(|i| model.e[i]);
+                if api == 1 {
+                    // EntryRef::key() returns the borrowed form
+                    log.push(Ev::Key(kid, 0));
+                } else {
+                    log.push(Ev::Key(kid, e.map_or(eks, |e| e.ks)));
+                }
+            }
+            (0, 6) => {
+                if let Some(i) = occ {
+                    model.e[i].v ^= TOGGLE;
+                }
+            }
+            (0, 7) => {
+                if let Some(i) = occ {
+                    let v = next_val();
+                    log.push(Ev::Old(model.e[i].v, model.e[i].vs));
+                    model.e[i].v = v.0;
+                    model.e[i].vs = v.1;
+                }
+            }
+            (0, 8) => {
+                if let Some(i) = occ {
+                    log.push(Ev::Old(model.e[i].v, model.e[i].vs));
+                    eks = model.e[i].ks;
+                    model.e.swap_remove(i);
+                }
+            }
+            (0, 9) => {
+                log.push(Ev::Occ(occ.is_some()));
+                st = if occ.is_some() { 1 } else { 2 };
+            }
+            (1, 10) | (1, 30) => {
+                let e = model.e[occ.unwrap()];
+                log.push(Ev::Key(e.kid, e.ks));
+            }
+            (1, 31) => {
+                let e = model.e[occ.unwrap()];
+                log.push(Ev::Key(e.kid, e.ks));
+                st = 3;
+            }
+            (1, 11) => {
+                let e = model.e[occ.unwrap()];
+                log.push(Ev::Val(e.v, e.vs));
+            }
+            (1, 32) => {
+                let e = model.e[occ.unwrap()];
+                log.push(Ev::Key(e.kid, e.ks));
+                log.push(Ev::Val(e.v, e.vs));
+            }
+            (1, 12) | (1, 13) => {
+                let i = occ.unwrap();
+                log.push(Ev::Val(model.e[i].v, model.e[i].vs));
+                model.e[i].v ^= TOGGLE;
+                if m == 13 {
+                    st = 3;
+                }
+            }
+            (1, 33) | (1, 34) => {
+                let i = occ.unwrap();
+                log.push(Ev::Key(model.e[i].kid, model.e[i].ks));
+                log.push(Ev::Val(model.e[i].v, model.e[i].vs));
+                model.e[i].v ^= TOGGLE;
+                if m == 34 {
+                    st = 3;
+                }
+            }
+            (1, 14) => {
+                let i = occ.unwrap();
+                let v = next_val();
+                log.push(Ev::Old(model.e[i].v, model.e[i].vs));
+                model.e[i].v = v.0;
+                model.e[i].vs = v.1;
+            }
+            (1, 35) => {
+                let i = occ.unwrap();
+                let nk = next_key();
+                log.push(Ev::RetKey(kid, model.e[i].ks));
+                model.e[i].ks = nk;
+            }
+            (1, 15) => {
+                let e = model.e.swap_remove(occ.unwrap());
+                log.push(Ev::Old(e.v, e.vs));
+                st = 3;
+            }
+            (1, 16) => {
+                let e = model.e.swap_remove(occ.unwrap());
+                log.push(Ev::Removed(e.kid, e.ks, e.v, e.vs));
+                st = 3;
+            }
+            (1, 17) => {
+                let i = occ.unwrap();
+                let v = next_val();
+                log.push(Ev::Old(model.e[i].v, model.e[i].vs));
+                model.e[i].v = v.0;
+                model.e[i].vs = v.1;
+                st = 0;
+            }
+            (1, 18) => {
+                let e = model.e.swap_remove(occ.unwrap());
+                log.push(Ev::Old(e.v, e.vs));
+                eks = e.ks;
+                st = 0;
+            }
+            (2, 20) => log.push(Ev::Key(kid, if api == 1 { 0 } else { eks })),
+            (2, 21) => {
+                log.push(Ev::RetKey(kid, eks));
+                st = 3;
+            }
+            (2, 22) | (2, 24) | (2, 25) => {
+                let v = next_val();
+                let newk = if raw { next_key() } else { eks };
+                model.e.push(ME { kid, ks: newk, v: v.0, vs: v.1 });
+                if raw {
+                    log.push(Ev::Key(kid, newk));
+                }
+                log.push(Ev::Val(v.0, v.1));
+                st = 3;
+            }
+            (2, 23) => {
+                let v = next_val();
+                model.e.push(ME { kid, ks: eks, v: v.0, vs: v.1 });
+                st = 1;
+            }
+            _ => break,
+        }
+    }
+    log
+}
+
+/// Log comparison in which a model key serial of FRESH (instance created inside hashbrown) matches any serial.
+pub fn logs_match(expect: &[Ev], got: &[Ev]) -> bool {
+    expect.len() == got.len()
+        && expect.iter().zip(got.iter()).all(|(e, g)| match (e, g) {
+            (Ev::Key(a, FRESH), Ev::Key(b, _)) => a == b,
+            (Ev::RetKey(a, FRESH), Ev::RetKey(b, _)) => a == b,
+            (Ev::Removed(a, FRESH, c, d), Ev::Removed(b, _, x, y)) => a == b && c == x && d == y,
+            _ => e == g,
+        })
+}
+
+type OccE<'a, K, V> = OccupiedEntry<'a, K, V, SimBuildHasher, SimAlloc>;
+
+/// Occupied-entry methods shared by entry() and entry_ref() (codes 10..16). Returns false when done.
+fn occupied_step<'a, K: KeyT, V: ValT>(o: OccE<'a, K, V>, m: i64, vals: &mut std::vec::IntoIter<V>, log: &mut Vec<Ev>, rk: &mut Vec<K>, rv: &mut Vec<V>) -> Option<OccE<'a, K, V>> {
+    match m {
+        10 => {
+            log.push(Ev::Key(o.key().id(), o.key().serial()));
+            Some(o)
+        }
+        11 => {
+            log.push(Ev::Val(o.get().val(), o.get().serial()));
+            Some(o)
+        }
+        12 => {
+            let mut o = o;
+            let r = o.get_mut();
+            log.push(Ev::Val(r.val(), r.serial()));
+            r.set(r.val() ^ TOGGLE);
+            Some(o)
+        }
+        13 => {
+            let r = o.into_mut();
+            log.push(Ev::Val(r.val(), r.serial()));
+            r.set(r.val() ^ TOGGLE);
+            None
+        }
+        14 => {
+            let mut o = o;
+            let old = o.insert(vals.next().unwrap());
+            log.push(Ev::Old(old.val(), old.serial()));
+            rv.push(old);
+            Some(o)
+        }
+        15 => {
+            let old = o.remove();
+            log.push(Ev::Old(old.val(), old.serial()));
+            rv.push(old);
+            None
+        }
+        _ => {
+            let (k, v) = o.remove_entry();
+            log.push(Ev::Removed(k.id(), k.serial(), v.val(), v.serial()));
+            rk.push(k);
+            rv.push(v);
+            None
+        }
+    }
+}
 
 impl<K: KeyT, V: ValT> MapWorld<K, V> {
-    pub(crate) fn op_entry_other(&mut self, _si: usize, _op: &Op, _api: i64) -> VResult {
+    pub(crate) fn op_entry_other(&mut self, si: usize, op: &Op, api: i64) -> VResult {
+        let kid = op.a as u32 % K::UNIVERSE;
+        let methods: Vec<i64> = op.v.iter().skip(1).copied().collect();
+        let vals: Vec<V> = (0..4).map(|i| V::make((op.b as u32).wrapping_add(i) & !TOGGLE)).collect();
+        let vtoks: Vec<(u32, u32)> = vals.iter().map(|v| (v.val(), v.serial())).collect();
+        let keys2: Vec<K> = if (2..=4).contains(&api) { (0..4).map(|_| K::make(kid)).collect() } else { Vec::new() };
+        let k2: Vec<u32> = if keys2.is_empty() { vec![0] } else { keys2.iter().map(|k| k.serial()).collect() };
+        let own_key = if api == 5 { Some(K::make(kid)) } else { None };
+        let ks = own_key.as_ref().map_or(0, |k| k.serial());
+        let view = K::view(kid);
+        let hash = self.slots[si].plan.hash(kid);
+        let plan = self.slots[si].plan.clone();
+        let mut fc = self.fctx(si, op);
+        fc.toggles = true;
+        fc.allowed = vtoks.iter().map(|v| (kid, v.0)).collect();
+        fc.arg_serials = std::iter::once(ks).chain(vtoks.iter().map(|v| v.1)).chain(k2.iter().copied()).collect();
+        self.note_entry_state(si);
+        let mut expect_model = self.slots[si].model.clone();
+        let present = expect_model.pos(kid).map(|i| expect_model.e[i]);
+        let expect = if api == 6 {
+            match present {
+                Some(e) => vec![Ev::Occ(true), Ev::Key(e.kid, e.ks), Ev::Val(e.v, e.vs)],
+                None => vec![Ev::Occ(false)],
+            }
+        } else {
+            model_chain(&mut expect_model, api, kid, ks, &methods, &vtoks, &k2)
+        };
+        let m = self.slots[si].map.as_mut().unwrap();
+        let mut spare_v: Vec<V> = Vec::new();
+        let mut spare_k: Vec<K> = Vec::new();
+        let mut ret_k: Vec<K> = Vec::new();
+        let mut ret_v: Vec<V> = Vec::new();
+        let (spv, spk, rk, rv) = (&mut spare_v, &mut spare_k, &mut ret_k, &mut ret_v);
+        let viewr = &view;
+        let out = self.ctx.call(op, move || {
+            let mut vals = vals.into_iter();
+            let mut keys2 = keys2.into_iter();
+            let mut log: Vec<Ev> = Vec::new();
+            match api {
+                1 => {
+                    enum St<'a, 'b, K: KeyT, V> {
+                        E(EntryRef<'a, 'b, K, K::View, V, SimBuildHasher, SimAlloc>),
+                        O(OccE<'a, K, V>),
+                        V(VacantEntryRef<'a, 'b, K, K::View, V, SimBuildHasher, SimAlloc>),
+                        Done,
+                    }
+                    let mut st = St::E(m.entry_ref(viewr));
+                    for &mth in &methods {
+                        let code = match &st {
+                            St::E(_) => 0,
+                            St::O(_) => 1,
+                            St::V(_) => 2,
+                            St::Done => 3,
+                        };
+                        if code == 3 || !method_ok(1, code, mth) {
+                            break;
+                        }
+                        st = match (st, mth) {
+                            (St::E(e), 1) => St::O(e.insert(vals.next().unwrap())),
+                            (St::E(e), 2) => {
+                                let r = e.or_insert(vals.next().unwrap());
+                                log.push(Ev::Val(r.val(), r.serial()));
+                                St::Done
+                            }
+                            (St::E(e), 3) => {
+                                let mut slot = Some(vals.next().unwrap());
+                                let r = e.or_insert_with(|| {
+                                    tick(Class::Pred);
+                                    slot.take().unwrap()
+                                });
+                                log.push(Ev::Val(r.val(), r.serial()));
+                                if let Some(v) = slot {
+                                    spv.push(v);
+                                }
+                                St::Done
+                            }
+                            (St::E(e), 6) => St::E(e.and_modify(|v| {
+                                tick(Class::Pred);
+                                v.set(v.val() ^ TOGGLE)
+                            })),
+                            (St::E(e), _) => match e {
+                                EntryRef::Occupied(o) => {
+                                    log.push(Ev::Occ(true));
+                                    St::O(o)
+                                }
+                                EntryRef::Vacant(v) => {
+                                    log.push(Ev::Occ(false));
+                                    St::V(v)
+                                }
+                            },
+                            (St::O(o), mm) => match occupied_step(o, mm, &mut vals, &mut log, rk, rv) {
+                                Some(o) => St::O(o),
+                                None => St::Done,
+                            },
+                            (St::V(v), 20) => {
+                                log.push(Ev::Key(K::view_id(v.key()), 0));
+                                St::V(v)
+                            }
+                            (St::V(v), 22) => {
+                                let r = v.insert(vals.next().unwrap());
+                                log.push(Ev::Val(r.val(), r.serial()));
+                                St::Done
+                            }
+                            (St::V(v), _) => St::O(v.insert_entry(vals.next().unwrap())),
+                            (St::Done, _) => St::Done,
+                        };
+                    }
+                    drop(st);
+                }
+                2 | 3 | 4 => {
+                    enum St<'a, K, V> {
+                        E(RawEntryMut<'a, K, V, SimBuildHasher, SimAlloc>),
+                        O(RawOccupiedEntryMut<'a, K, V, SimBuildHasher, SimAlloc>),
+                        V(RawVacantEntryMut<'a, K, V, SimBuildHasher, SimAlloc>),
+                        Done,
+                    }
+                    let b = m.raw_entry_mut();
+                    let mut st = St::E(match api {
+                        2 => b.from_key(viewr),
+                        3 => b.from_key_hashed_nocheck(hash, viewr),
+                        _ => b.from_hash(hash, |k| sim_eq(kid, k.id())),
+                    });
+                    for &mth in &methods {
+                        let code = match &st {
+                            St::E(_) => 0,
+                            St::O(_) => 1,
+                            St::V(_) => 2,
+                            St::Done => 3,
+                        };
+                        if code == 3 || !method_ok(api, code, mth) {
+                            break;
+                        }
+                        st = match (st, mth) {
+                            (St::E(e), 1) => St::O(e.insert(keys2.next().unwrap(), vals.next().unwrap())),
+                            (St::E(e), 2) => {
+                                let (k, v) = e.or_insert(keys2.next().unwrap(), vals.next().unwrap());
+                                log.push(Ev::Key(k.id(), k.serial()));
+                                log.push(Ev::Val(v.val(), v.serial()));
+                                St::Done
+                            }
+                            (St::E(e), 3) => {
+                                let mut slot = Some((keys2.next().unwrap(), vals.next().unwrap()));
+                                let (k, v) = e.or_insert_with(|| {
+                                    tick(Class::Pred);
+                                    slot.take().unwrap()
+                                });
+                                log.push(Ev::Key(k.id(), k.serial()));
+                                log.push(Ev::Val(v.val(), v.serial()));
+                                if let Some((k, v)) = slot {
+                                    spk.push(k);
+                                    spv.push(v);
+                                }
+                                St::Done
+                            }
+                            (St::E(e), 6) => St::E(e.and_modify(|_k, v| {
+                                tick(Class::Pred);
+                                v.set(v.val() ^ TOGGLE)
+                            })),
+                            (St::E(e), 7) => {
+                                let occupied = matches!(e, RawEntryMut::Occupied(_));
+                                let mut nv = if occupied { vals.next() } else { None };
+                                let lg = &mut log;
+                                let rvv = &mut *rv;
+                                St::E(e.and_replace_entry_with(|_k, old| {
+                                    tick(Class::Pred);
+                                    lg.push(Ev::Old(old.val(), old.serial()));
+                                    rvv.push(old);
+                                    nv.take()
+                                }))
+                            }
+                            (St::E(e), 8) => {
+                                let lg = &mut log;
+                                let rvv = &mut *rv;
+                                St::E(e.and_replace_entry_with(|_k, old| {
+                                    tick(Class::Pred);
+                                    lg.push(Ev::Old(old.val(), old.serial()));
+                                    rvv.push(old);
+                                    None
+                                }))
+                            }
+                            (St::E(e), _) => match e {
+                                RawEntryMut::Occupied(o) => {
+                                    log.push(Ev::Occ(true));
+                                    St::O(o)
+                                }
+                                RawEntryMut::Vacant(v) => {
+                                    log.push(Ev::Occ(false));
+                                    St::V(v)
+                                }
+                            },
+                            (St::O(o), 10) => {
+                                log.push(Ev::Key(o.key().id(), o.key().serial()));
+                                St::O(o)
+                            }
+                            (St::O(mut o), 30) => {
+                                let k = o.key_mut();
+                                log.push(Ev::Key(k.id(), k.serial()));
+                                St::O(o)
+                            }
+                            (St::O(o), 31) => {
+                                let k = o.into_key();
+                                log.push(Ev::Key(k.id(), k.serial()));
+                                St::Done
+                            }
+                            (St::O(o), 11) => {
+                                log.push(Ev::Val(o.get().val(), o.get().serial()));
+                                St::O(o)
+                            }
+                            (St::O(o), 32) => {
+                                let (k, v) = o.get_key_value();
+                                log.push(Ev::Key(k.id(), k.serial()));
+                                log.push(Ev::Val(v.val(), v.serial()));
+                                St::O(o)
+                            }
+                            (St::O(mut o), 12) => {
+                                let r = o.get_mut();
+                                log.push(Ev::Val(r.val(), r.serial()));
+                                r.set(r.val() ^ TOGGLE);
+                                St::O(o)
+                            }
+                            (St::O(o), 13) => {
+                                let r = o.into_mut();
+                                log.push(Ev::Val(r.val(), r.serial()));
+                                r.set(r.val() ^ TOGGLE);
+                                St::Done
+                            }
+                            (St::O(mut o), 33) => {
+                                let (k, v) = o.get_key_value_mut();
+                                log.push(Ev::Key(k.id(), k.serial()));
+                                log.push(Ev::Val(v.val(), v.serial()));
+                                v.set(v.val() ^ TOGGLE);
+                                St::O(o)
+                            }
+                            (St::O(o), 34) => {
+                                let (k, v) = o.into_key_value();
+                                log.push(Ev::Key(k.id(), k.serial()));
+                                log.push(Ev::Val(v.val(), v.serial()));
+                                v.set(v.val() ^ TOGGLE);
+                                St::Done
+                            }
+                            (St::O(mut o), 14) => {
+                                let old = o.insert(vals.next().unwrap());
+                                log.push(Ev::Old(old.val(), old.serial()));
+                                rv.push(old);
+                                St::O(o)
+                            }
+                            (St::O(mut o), 35) => {
+                                let old = o.insert_key(keys2.next().unwrap());
+                                log.push(Ev::RetKey(old.id(), old.serial()));
+                                rk.push(old);
+                                St::O(o)
+                            }
+                            (St::O(o), 15) => {
+                                let old = o.remove();
+                                log.push(Ev::Old(old.val(), old.serial()));
+                                rv.push(old);
+                                St::Done
+                            }
+                            (St::O(o), 16) => {
+                                let (k, v) = o.remove_entry();
+                                log.push(Ev::Removed(k.id(), k.serial(), v.val(), v.serial()));
+                                rk.push(k);
+                                rv.push(v);
+                                St::Done
+                            }
+                            (St::O(o), 17) => {
+                                let mut nv = vals.next();
+                                let lg = &mut log;
+                                let rvv = &mut *rv;
+                                St::E(o.replace_entry_with(|_k, old| {
+                                    tick(Class::Pred);
+                                    lg.push(Ev::Old(old.val(), old.serial()));
+                                    rvv.push(old);
+                                    nv.take()
+                                }))
+                            }
+                            (St::O(o), _) => {
+                                let lg = &mut log;
+                                let rvv = &mut *rv;
+                                St::E(o.replace_entry_with(|_k, old| {
+                                    tick(Class::Pred);
+                                    lg.push(Ev::Old(old.val(), old.serial()));
+                                    rvv.push(old);
+                                    None
+                                }))
+                            }
+                            (St::V(v), mm) => {
+                                let (key, val) = (keys2.next().unwrap(), vals.next().unwrap());
+                                let (k, v) = match mm {
+                                    22 => v.insert(key, val),
+                                    24 => v.insert_hashed_nocheck(hash, key, val),
+                                    _ => v.insert_with_hasher(hash, key, val, |k| {
+                                        tick(Class::Hash);
+                                        plan.hash(k.id())
+                                    }),
+                                };
+                                log.push(Ev::Key(k.id(), k.serial()));
+                                log.push(Ev::Val(v.val(), v.serial()));
+                                St::Done
+                            }
+                            (St::Done, _) => St::Done,
+                        };
+                    }
+                    drop(st);
+                }
+                5 => {
+                    enum St<'a, K, V> {
+                        E(RustcEntry<'a, K, V, SimAlloc>),
+                        O(RustcOccupiedEntry<'a, K, V, SimAlloc>),
+                        V(RustcVacantEntry<'a, K, V, SimAlloc>),
+                        Done,
+                    }
+                    let mut st = St::E(m.rustc_entry(own_key.unwrap()));
+                    for &mth in &methods {
+                        let code = match &st {
+                            St::E(_) => 0,
+                            St::O(_) => 1,
+                            St::V(_) => 2,
+                            St::Done => 3,
+                        };
+                        if code == 3 || !method_ok(5, code, mth) {
+                            break;
+                        }
+                        st = match (st, mth) {
+                            (St::E(e), 1) => St::O(e.insert(vals.next().unwrap())),
+                            (St::E(e), 2) => {
+                                let r = e.or_insert(vals.next().unwrap());
+                                log.push(Ev::Val(r.val(), r.serial()));
+                                St::Done
+                            }
+                            (St::E(e), 3) => {
+                                let mut slot = Some(vals.next().unwrap());
+                                let r = e.or_insert_with(|| {
+                                    tick(Class::Pred);
+                                    slot.take().unwrap()
+                                });
+                                log.push(Ev::Val(r.val(), r.serial()));
+                                if let Some(v) = slot {
+                                    spv.push(v);
+                                }
+                                St::Done
+                            }
+                            (St::E(e), 5) => {
+                                log.push(Ev::Key(e.key().id(), e.key().serial()));
+                                St::E(e)
+                            }
+                            (St::E(e), 6) => St::E(e.and_modify(|v| {
+                                tick(Class::Pred);
+                                v.set(v.val() ^ TOGGLE)
+                            })),
+                            (St::E(e), _) => match e {
+                                RustcEntry::Occupied(o) => {
+                                    log.push(Ev::Occ(true));
+                                    St::O(o)
+                                }
+                                RustcEntry::Vacant(v) => {
+                                    log.push(Ev::Occ(false));
+                                    St::V(v)
+                                }
+                            },
+                            (St::O(o), 10) => {
+                                log.push(Ev::Key(o.key().id(), o.key().serial()));
+                                St::O(o)
+                            }
+                            (St::O(o), 11) => {
+                                log.push(Ev::Val(o.get().val(), o.get().serial()));
+                                St::O(o)
+                            }
+                            (St::O(mut o), 12) => {
+                                let r = o.get_mut();
+                                log.push(Ev::Val(r.val(), r.serial()));
+                                r.set(r.val() ^ TOGGLE);
+                                St::O(o)
+                            }
+                            (St::O(o), 13) => {
+                                let r = o.into_mut();
+                                log.push(Ev::Val(r.val(), r.serial()));
+                                r.set(r.val() ^ TOGGLE);
+                                St::Done
+                            }
+                            (St::O(mut o), 14) => {
+                                let old = o.insert(vals.next().unwrap());
+                                log.push(Ev::Old(old.val(), old.serial()));
+                                rv.push(old);
+                                St::O(o)
+                            }
+                            (St::O(o), 15) => {
+                                let old = o.remove();
+                                log.push(Ev::Old(old.val(), old.serial()));
+                                rv.push(old);
+                                St::Done
+                            }
+                            (St::O(o), _) => {
+                                let (k, v) = o.remove_entry();
+                                log.push(Ev::Removed(k.id(), k.serial(), v.val(), v.serial()));
+                                rk.push(k);
+                                rv.push(v);
+                                St::Done
+                            }
+                            (St::V(v), 20) => {
+                                log.push(Ev::Key(v.key().id(), v.key().serial()));
+                                St::V(v)
+                            }
+                            (St::V(v), 21) => {
+                                let k = v.into_key();
+                                log.push(Ev::RetKey(k.id(), k.serial()));
+                                rk.push(k);
+                                St::Done
+                            }
+                            (St::V(v), 22) => {
+                                let r = v.insert(vals.next().unwrap());
+                                log.push(Ev::Val(r.val(), r.serial()));
+                                St::Done
+                            }
+                            (St::V(v), _) => St::O(v.insert_entry(vals.next().unwrap())),
+                            (St::Done, _) => St::Done,
+                        };
+                    }
+                    drop(st);
+                }
+                _ => {
+                    // raw_entry(): immutable lookups through the three builders
+                    let b = m.raw_entry();
+                    let r = match methods.first().copied().unwrap_or(0).rem_euclid(3) {
+                        0 => b.from_key(viewr),
+                        1 => b.from_key_hashed_nocheck(hash, viewr),
+                        _ => b.from_hash(hash, |k| sim_eq(kid, k.id())),
+                    };
+                    match r {
+                        Some((k, v)) => {
+                            log.push(Ev::Occ(true));
+                            log.push(Ev::Key(k.id(), k.serial()));
+                            log.push(Ev::Val(v.val(), v.serial()));
+                        }
+                        None => log.push(Ev::Occ(false)),
+                    }
+                }
+            }
+            spv.extend(vals);
+            spk.extend(keys2);
+            log
+        });
+        drop(spare_v);
+        drop(spare_k);
+        drop(ret_k);
+        drop(ret_v);
+        drop(view);
+        let Some(log) = self.settle(out, si, fc)? else { return Ok(()) };
+        if !self.ctx.functional() {
+            let act = self.actual(si);
+            self.slots[si].model.e = act.into_iter().map(|x| x.0).collect();
+            return Ok(());
+        }
+        if !logs_match(&expect, &log) {
+            vio!(self, "entry/Entry", "entry flavour {api} on key {kid}, chain {:?} observed {:?}, the model expects {:?}", &op.v[1..], log, expect);
+        }
+        // key instances created inside hashbrown by the Into conversion get their serial from the table
+        if expect_model.e.iter().any(|e| e.ks == FRESH) {
+            sim().probe(Probe::VacantDropped);
+            let act = self.actual(si);
+            for e in expect_model.e.iter_mut().filter(|e| e.ks == FRESH) {
+                if let Some((a, _)) = act.iter().find(|(a, _)| a.kid == e.kid) {
+                    e.ks = if K::HAS_SERIAL { a.ks } else { 0 };
+                }
+            }
+        }
+        self.slots[si].model = expect_model;
         Ok(())
     }
 }
